@@ -71,8 +71,8 @@ pub fn gen_plan(seed: u64, index: usize, faulty: bool) -> Plan {
             ck.dgram_recv_buf = Some(rng.usize(1, 2000));
         }
     }
-    ck.mtu_discovery = rng.chance_pm(150);
-    sk.mtu_discovery = rng.chance_pm(150);
+    ck.mtu_discovery = rng.chance_pm(300);
+    sk.mtu_discovery = rng.chance_pm(300);
     let nb = rng.usize(1, 4);
     let bursts = (0..nb)
         .map(|_| {
@@ -279,6 +279,25 @@ pub fn execute(plan: &Plan, trace: bool) -> Exec {
         }
         net.quiesce(Duration::from_millis(200), Duration::from_secs(30)).await;
         tokio::time::sleep(Duration::from_millis(500)).await;
+        // the contract again, on the same handles, now that path-MTU discovery (when enabled) has
+        // moved the transport's limit: the advertised maximum is the current one, not the first
+        // (a peer whose datagram buffer is a few bytes closes the connection when the first probe's
+        // largest datagram reaches it - quinn treats it as oversized; nothing to probe then)
+        let alive = cconn.quic_connection().close_reason().is_none() && sconn.quic_connection().close_reason().is_none();
+        if alive && plan.ck.dgram_recv_buf.is_some() {
+            let mut s = sides[0].lock().unwrap();
+            let mut log = std::mem::take(&mut s.sent);
+            probe_size_contract(&cconn, plan.sk.dgram_recv_buf, "client (second probe)", &mut s, &mut log);
+            s.sent = log;
+        }
+        if alive && plan.sk.dgram_recv_buf.is_some() {
+            let mut s = sides[1].lock().unwrap();
+            let mut log = std::mem::take(&mut s.sent);
+            probe_size_contract(&sconn, plan.ck.dgram_recv_buf, "server (second probe)", &mut s, &mut log);
+            s.sent = log;
+        }
+        net.quiesce(Duration::from_millis(200), Duration::from_secs(30)).await;
+        tokio::time::sleep(Duration::from_millis(300)).await;
         // oracle: what side X received must be a sub-multiset of what side Y sent
         let mut problems = Vec::new();
         let mut delivered = 0u64;
@@ -608,7 +627,7 @@ pub fn def() -> PropertyDef {
             Box::new(Typed(C03BigSid)),
             Box::new(Typed(C03Foreign)),
         ],
-        rule: "e2e-*: real client and server; the first 28 runs sweep the peer's datagram receive limit (None, 1,2,3,5,8,9,10,11,20,64,1200,1500,65535) on either side, the rest sample it; size-contract probe with no await between max_datagram_size() and the sends (lengths 0,1,m-1,m must not be TooLarge; m+1,m+2,m+10 must be; None exactly when the peer disabled datagrams or nothing fits); 1-4 bursts of 1-12 unique payloads (lengths 0..max incl. max-0..3) in both directions with 1-3 concurrent receive_datagram callers per side; oracle: received multiset is a sub-multiset of the sent one (never altered, merged, truncated, duplicated, framing never visible; payload() == deref). raw-large-session-id: a raw client (which encodes the quarter stream id of its datagrams in every varint length, shortest and non-shortest) burns stream ids so the session id needs a 2-byte (quick) or 4-byte (thorough) quarter stream id; checks delivery, the exact wire form (shortest quarter-id varint + payload) and the size contract with a multi-byte header. 8-byte quarter ids need 2^28 streams and are out of reach in situ. raw-foreign-datagrams: the raw peer interleaves datagrams of the live session (every varint length of the quarter id) with datagrams naming other sessions (incl. ids equal to the live one modulo 2^8 / 2^16 / 2^32) while the application is waiting in receive_datagram or pauses 20 / 150 ms before every call: every payload handed to the application is an own payload, unaltered, and on the unpaced third every own datagram arrives. Non-trivial = something was delivered or a size probe ran, and (fault batch) a fault fired; distinct = distinct plan hashes.",
+        rule: "e2e-*: real client and server; the first 28 runs sweep the peer's datagram receive limit (None, 1,2,3,5,8,9,10,11,20,64,1200,1500,65535) on either side, the rest sample it; size-contract probe with no await between max_datagram_size() and the sends (lengths 0,1,m-1,m must not be TooLarge; m+1,m+2,m+10 must be; None exactly when the peer disabled datagrams or nothing fits; probed right after establishment and again at the end of the run on the same handles - with path-MTU discovery enabled on a third of the endpoints the limit has moved in between); 1-4 bursts of 1-12 unique payloads (lengths 0..max incl. max-0..3) in both directions with 1-3 concurrent receive_datagram callers per side; oracle: received multiset is a sub-multiset of the sent one (never altered, merged, truncated, duplicated, framing never visible; payload() == deref). raw-large-session-id: a raw client (which encodes the quarter stream id of its datagrams in every varint length, shortest and non-shortest) burns stream ids so the session id needs a 2-byte (quick) or 4-byte (thorough) quarter stream id; checks delivery, the exact wire form (shortest quarter-id varint + payload) and the size contract with a multi-byte header. 8-byte quarter ids need 2^28 streams and are out of reach in situ. raw-foreign-datagrams: the raw peer interleaves datagrams of the live session (every varint length of the quarter id) with datagrams naming other sessions (incl. ids equal to the live one modulo 2^8 / 2^16 / 2^32) while the application is waiting in receive_datagram or pauses 20 / 150 ms before every call: every payload handed to the application is an own payload, unaltered, and on the unpaced third every own datagram arrives. Non-trivial = something was delivered or a size probe ran, and (fault batch) a fault fired; distinct = distinct plan hashes.",
         assumptions: vec![
             "under injected loss the datagram oracle is inclusion (datagrams may be lost or reordered), never equality; UDP-level duplication must be absorbed by QUIC",
             "quinn/rustls/tokio executed for real but trusted; current-thread runtime",
